@@ -38,6 +38,9 @@ type ScriptSub struct {
 	Redeliver int
 	InFlight  bool          // emit without waiting for settlement
 	Gate      chan struct{} // when non-nil, emission starts after it is closed
+	// CtxFor, when set, derives the context of a delivered copy from the subscription context
+	// (a transport that preserves or decorates message contexts)
+	CtxFor func(ctx context.Context, m *message.Message) context.Context
 
 	mu             sync.Mutex
 	closing        chan struct{}
@@ -82,6 +85,9 @@ func (s *ScriptSub) Subscribe(ctx context.Context, topic string) (<-chan *messag
 			for attempt := 0; ; attempt++ {
 				c := m.Copy()
 				c.SetContext(ctx)
+				if s.CtxFor != nil {
+					c.SetContext(s.CtxFor(ctx, c))
+				}
 				d := &Delivery{Topic: topic, UUID: m.UUID, Attempt: attempt, Msg: c}
 				select {
 				case ch <- c:
@@ -150,6 +156,7 @@ const (
 	PubErr
 	PubPanic
 	PubErrAfter // the inner publisher accepted the messages, then an error is reported
+	PubErrCanceled // nothing accepted; the error wraps context.Canceled (e.g. a publisher whose own context ended)
 )
 
 // PubCall records one Publish call.
@@ -191,6 +198,8 @@ func (p *ScriptPub) Publish(topic string, msgs ...*message.Message) error {
 	switch c.Outcome {
 	case PubErr:
 		return ErrScriptPub
+	case PubErrCanceled:
+		return fmt.Errorf("scripted publish failure: %w", context.Canceled)
 	case PubPanic:
 		panic("scripted publisher panic")
 	}
@@ -236,10 +245,11 @@ const (
 	BNackPanic
 	BCanceledOut        // context.Canceled together with outputs
 	BWrappedCanceledOut // an error wrapping context.Canceled together with outputs
+	BOutEmpty           // success with an empty, non-nil slice of outputs
 	NBehaviours
 )
 
-var behaviourNames = []string{"out0", "out1", "out2", "err", "err+out", "panic(str)", "panic(err)", "panic(nil)", "ack;ok", "ack;err", "ack;panic", "nack;ok", "nack;err", "nack;panic", "canceled+out", "wrapped-canceled+out"}
+var behaviourNames = []string{"out0", "out1", "out2", "err", "err+out", "panic(str)", "panic(err)", "panic(nil)", "ack;ok", "ack;err", "ack;panic", "nack;ok", "nack;err", "nack;panic", "canceled+out", "wrapped-canceled+out", "out-empty-slice"}
 
 func (b Behaviour) String() string { return behaviourNames[b] }
 
@@ -293,6 +303,8 @@ func (b Behaviour) Do(m *message.Message) ([]*message.Message, error) {
 	case BNackPanic:
 		m.Nack()
 		panic("scripted handler panic")
+	case BOutEmpty:
+		return []*message.Message{}, nil
 	case BCanceledOut:
 		return Outputs(m, 2), context.Canceled
 	case BWrappedCanceledOut:
